@@ -289,7 +289,7 @@ func c03Mutation(r *vf.Run, id string, rng *rand.Rand) {
 		}
 		blk, _ = enc.Field(blk, f, randChoice(rng))
 	}
-	kind := rng.Intn(11)
+	kind := rng.Intn(12)
 	switch kind {
 	case 0: // truncate
 		blk = blk[:rng.Intn(len(blk))]
@@ -326,6 +326,24 @@ func c03Mutation(r *vf.Run, id string, rng *rand.Rand) {
 	case 9: // random bytes
 		blk = make([]byte, 1+rng.Intn(24))
 		rng.Read(blk)
+	case 11: // integers that only look valid after truncation to 32 bits
+		k := uint64(1+rng.Intn(3)) << 32
+		if rng.Intn(4) == 0 {
+			k = 1 << 63
+		}
+		switch rng.Intn(4) {
+		case 0: // table size update k*2^32 + r, r within the limit, at the block start
+			blk = append(hpackref.AppendInt(nil, 0x20, 5, k+uint64(rng.Intn(4097))), blk...)
+		case 1: // indexed field whose index is valid modulo 2^32
+			blk = hpackref.AppendInt(blk, 0x80, 7, k+uint64(1+rng.Intn(61)))
+		case 2: // literal with a name index valid modulo 2^32
+			blk = hpackref.AppendInt(blk, 0x40, 6, k+uint64(1+rng.Intn(61)))
+			blk = hpackref.AppendString(blk, "v", false)
+		case 3: // string length valid modulo 2^32
+			blk = append(blk, 0x00)
+			blk = hpackref.AppendInt(blk, 0, 7, k+2)
+			blk = append(blk, 'a', 'b', 0x00, 0x01, 'v')
+		}
 	case 10: // string length larger than what is left
 		blk = append(blk, 0x00)
 		blk = hpackref.AppendInt(blk, 0, 7, uint64(5+rng.Intn(1<<20)))
